@@ -8,7 +8,9 @@ CONSTANTS
   FixTotalMax = TRUE
   FixRecoverAuth = TRUE
   FixBlockComponents = TRUE
-INVARIANTS TypeOK AlwaysRunning BoundedCatchup
+  SetRoundSkipsExisting = TRUE
+  WalEncoderLimit = FALSE
+INVARIANTS TypeOK AlwaysRunning BoundedCatchup TrackedRange
 PROPERTIES InvalidIsStutter DirectOnlyNil
 ACTION_CONSTRAINT Edge
 VIEW View
